@@ -61,7 +61,7 @@ func genFlags(t *rapid.T, hasSyntax bool) []string {
 
 func genAnyGrammar(t *rapid.T, big bool) *gr.Grammar {
 	lo := gen.DefaultLexOpts()
-	so := gen.SynOpts{ErrorAlts: rapid.IntRange(0, 2).Draw(t, "errorAlts") == 0}
+	so := gen.SynOpts{ErrorAlts: rapid.IntRange(0, 2).Draw(t, "errorAlts") == 0, Chains: true}
 	if big {
 		lo.MaxTokens, lo.MaxRegs = 8, 4
 		so.MaxNT, so.MaxTerms = 8, 8
